@@ -567,8 +567,114 @@ def run_placeholders(w) -> None:
         loaded.unload()
 
 
+ADAPTED_SOURCE = """import functools
+import inspect
+import icontract
+
+
+def injecting(func):
+    \"\"\"A third-party decorator which adapts the interface (it supplies the first argument itself) and says so in __signature__.\"\"\"
+    @functools.wraps(func)
+    def wrapper(table, limit=DFLT_LIMIT, *, strict=DFLT_STRICT):
+        HUB.body('wrapper', {'table': table, 'limit': limit, 'strict': strict})
+        return func('connection', table, limit, strict)
+    wrapper.__signature__ = inspect.Signature([
+        inspect.Parameter('table', inspect.Parameter.POSITIONAL_OR_KEYWORD),
+        inspect.Parameter('limit', inspect.Parameter.POSITIONAL_OR_KEYWORD, default=DFLT_LIMIT),
+        inspect.Parameter('strict', inspect.Parameter.KEYWORD_ONLY, default=DFLT_STRICT)])
+    return wrapper
+
+
+def c_a(table, limit, strict):
+    return HUB.cond('c_a', {'table': table, 'limit': limit, 'strict': strict})
+
+
+def s_a(table, limit):
+    return HUB.capture('s_a', {'table': table, 'limit': limit})
+
+
+def p_a(table, limit, strict, result, OLD):
+    return HUB.cond('p_a', {'table': table, 'limit': limit, 'strict': strict})
+
+
+def e_a(*, table, limit, strict):
+    return HUB.error('p_a', {'table': table, 'limit': limit, 'strict': strict})
+
+
+@icontract.snapshot(s_a, name='snap')
+@icontract.ensure(p_a, error=e_a)
+@icontract.require(c_a, error=HUB.errinst('c_a'))
+@injecting
+def fetch(connection, table, limit, strict):
+    return (connection, table, limit, strict)
+
+
+def logged(func):
+    @functools.wraps(func)
+    def wrapper(*args, **kwargs):
+        return func(*args, **kwargs)
+    return wrapper
+
+
+class Store:
+    @logged
+    def lookup(self, table, limit=DFLT_LIMIT, *, strict=DFLT_STRICT):
+        HUB.body('wrapper', {'table': table, 'limit': limit, 'strict': strict})
+        return (table, limit, strict)
+
+
+STORE = Store()
+# contracts applied to a BOUND method (the instance is bound already: the parameters start at ``table``)
+bound_lookup = icontract.snapshot(s_a, name='snap')(icontract.ensure(p_a, error=e_a)(icontract.require(c_a, error=HUB.errinst('c_a'))(STORE.lookup)))
+"""
+
+
+def run_adapted_signature(w) -> None:
+    """The parameters of the decorated callable are those IT reports (``inspect.signature`` honours ``__signature__`` and bound
+    methods), not those of the function at the bottom of its ``__wrapped__`` chain."""
+    dl, ds = Tok("default:limit"), Tok("default:strict")
+    loaded = prog.load_source(ADAPTED_SOURCE, w.scratch(), extra_globals={"DFLT_LIMIT": dl, "DFLT_STRICT": ds})
+    hub, mod = loaded.hub, loaded.module
+    try:
+        for tag, fn in (("adapter-with-__signature__", mod.fetch), ("bound-method-under-a-wraps-decorator", mod.bound_lookup)):
+            for args, kwargs in (((Tok("t"),), {}), ((Tok("t"), Tok("l")), {}), ((Tok("t"),), {"strict": Tok("s")}), ((), {"table": Tok("t"), "limit": Tok("l")}),
+                                 ((Tok("t"), Tok("l")), {"strict": Tok("s")})):
+                hub.reset()
+                hub.truth = {"p_a": False}
+                exc = None
+                try:
+                    fn(*args, **kwargs)
+                except BaseException as err:  # pylint: disable=broad-except
+                    exc = err
+                case = {"adapted": tag, "npos": len(args), "kws": sorted(kwargs)}
+                w.case(("adapted-signature", tag, len(args), tuple(sorted(kwargs))))
+                w.count("adapted_signature_calls")
+                w.count("probe_events", len(hub.events))
+                body = [e for e in hub.events if e.kind == "body"]
+                made = hub.factory_made.get("p_a", [])
+                if len(body) != 1 or not (made and exc is made[-1]):
+                    w.violation("C05/contract-saw-other-value-than-body", "{}: call with {} positionals and keywords {} did not run through all probes: "
+                                "{}: {}".format(tag, len(args), sorted(kwargs), type(exc).__name__, str(exc)[:300]), case,
+                                {"events": [repr(e) for e in hub.events]})
+                    continue
+                got_body = body[0].got
+                for ev in hub.events:
+                    if ev.kind == "body":
+                        continue
+                    for name, val in ev.got.items():
+                        w.count("identity_comparisons")
+                        if val is not got_body[name]:
+                            w.violation("C05/contract-saw-other-value-than-body", "{}: {} {} received {}={!r} but the decorated callable received "
+                                        "{!r} (call with {} positionals, keywords {})".format(tag, ev.kind, ev.id, name, val, got_body[name], len(args),
+                                                                                             sorted(kwargs)), case)
+    finally:
+        loaded.unload()
+
+
 def run(w) -> None:
     rng = w.rng
+    if w.shard == 2 % w.nshards:
+        run_adapted_signature(w)
     if w.shard == 0:
         run_redefined(w)
     if w.shard == 1 % w.nshards:
@@ -614,6 +720,9 @@ def replay(case, w) -> None:
         return
     if "placeholders" in case:
         run_placeholders(w)
+        return
+    if "adapted" in case:
+        run_adapted_signature(w)
         return
     params = case["params"]
     kind = case.get("kind", "function")
